@@ -82,6 +82,33 @@ theorem C04_partial_ckpt (h : List Op) (hwf : GraphSpec.wellFormed h = true)
   exact ⟨s, s', s'', u, hrun, hopen, hclose, sc (hP'.eqv.trans hP.eqv.symm), sc (hP''.eqv.trans hP.eqv.symm),
     hrunu, hP.sim.reads _, sc hP.eqv, hP.root, hP'.root, hP''.root⟩
 
+/-! ### the node table reloads exactly what was written, for every size (seed C04-seed2) -/
+
+/-- `IdMap::load` reads the node table record by record — record `k` from page `k / R`, slot `k % R`
+    (regenerated table entries; seed C04-seed2 turns it into a page-wise loop with `count % R` slots of
+    the last page) -/
+theorem idmap_load_reads_per_record : Generated.idmapLoadPerRecord = true := by decide
+
+/-- **load_reads_all**: for EVERY record list (every node count `n`: 511, 512, 513, 1024, …) and every
+    page capacity `R ≥ 1`, the record-by-record load returns exactly the written records, in order -/
+theorem load_reads_all (R : Nat) (hR : 1 ≤ R) (recs : List I2e) :
+    IdMap.readPerRecord R (IdMap.tablePages R recs) recs.length = recs := IdMap.load_reads_all R hR recs
+
+/-- the load of the current source (what `GraphEngine::open` builds the idmap from; `Engine.open` in the
+    model goes through it, so `C04_partial`, `C04_partial_ckpt` and `reopen_rec` depend on it) -/
+theorem node_table_reloads (recs : List I2e) : IdMap.readNodeTable recs = recs := IdMap.readNodeTable_eq recs
+
+/-- the page-wise formulation with `n % R` slots of the last page is wrong exactly on the page
+    boundaries: with the real capacity, a table of exactly 512 records loads as EMPTY, whatever it holds;
+    with `R = 2`: 4 records load as 2, 3 records load as 3; reading `n - page_index * R` slots is right -/
+theorem C04_counterexample_page_wise_modulo (recs : List I2e) :
+    IdMap.readPerPage true 512 (IdMap.tablePages 512 recs) 512 = [] ∧
+    IdMap.readPerPage true 2 (IdMap.tablePages 2 [⟨10, 1⟩, ⟨11, 1⟩, ⟨12, 2⟩, ⟨13, 2⟩]) 4 = [⟨10, 1⟩, ⟨11, 1⟩] ∧
+    IdMap.readPerPage true 2 (IdMap.tablePages 2 [⟨10, 1⟩, ⟨11, 1⟩, ⟨12, 2⟩]) 3 = [⟨10, 1⟩, ⟨11, 1⟩, ⟨12, 2⟩] ∧
+    IdMap.readPerPage false 2 (IdMap.tablePages 2 [⟨10, 1⟩, ⟨11, 1⟩, ⟨12, 2⟩, ⟨13, 2⟩]) 4 =
+      [⟨10, 1⟩, ⟨11, 1⟩, ⟨12, 2⟩, ⟨13, 2⟩] :=
+  ⟨rfl, by decide, by decide, by decide⟩
+
 /-- one reopen step, state level: from any engine state that satisfies the two invariants -/
 theorem reopen_preserves_invariants {s : Engine} {g : GraphSpec.Graph} (hS : Sim s g) (hR : Rec s) :
     ∃ s', s.reopen = .ok s' ∧ Sim s' g ∧ Rec s' := reopen_sim hS hR
